@@ -470,6 +470,27 @@ def finish(
 # --------------------------------------------------------------------------- misc helpers
 
 
+class pyhap_debug_logging:
+    """Run the implementation with the `pyhap` logger at DEBUG (records go to a NullHandler): behaviour must not
+    depend on how the application configured logging (guards like `if logger.isEnabledFor(DEBUG)` are code too)."""
+
+    def __enter__(self):
+        import logging
+
+        self.lg = logging.getLogger("pyhap")
+        self.old = (self.lg.level, self.lg.propagate)
+        self.h = logging.NullHandler()
+        self.lg.addHandler(self.h)
+        self.lg.setLevel(logging.DEBUG)
+        self.lg.propagate = False
+        return self
+
+    def __exit__(self, *a):
+        self.lg.removeHandler(self.h)
+        self.lg.setLevel(self.old[0])
+        self.lg.propagate = self.old[1]
+
+
 class Timeout(BaseException):
     pass
 
